@@ -119,7 +119,7 @@ Definition k_init (s : cspec) : caller :=
 Record sqe := { q_tok : Z; q_own : nat; q_seq : nat; q_call : call }.
 
 Inductive death := DAbort | DWedge.
-Inductive tag := TTimeout | TBadFdCo.
+Inductive tag := TTimeout.
 
 Record state := {
   s_res : list rstate;
@@ -189,9 +189,6 @@ Definition map_result (v : Z) (buf : list Z) : result :=
 Definition push (st : state) (i : nat) (tok : Z) (seq : nat) (cl : call) : state :=
   set_inflight st (s_inflight st ++ [{| q_tok := tok; q_own := i; q_seq := seq; q_call := cl |}]).
 
-Definition is_closed (st : state) (cl : call) : bool :=
-  match r_kind (nth (c_res cl) (s_res st) rdummy) with KClosed => true | _ => false end.
-
 (** [EventLoop::$syscall] + the first half of the hooked call, for caller [i] whose record is [k]
     (results up to date) and whose next call is [cl]. Slot first (assertion "previous token" when the
     token is still registered), then the request. *)
@@ -207,12 +204,11 @@ Definition submit (st : state) (i : nat) (k : caller) (cl : call) (rest : list c
         set_caller st1 i {| k_co := k_co k; k_tok := k_tok k; k_prog := rest; k_stat := SHeld cl; k_out := k_out k;
                             k_seq := seq; k_slot := None; k_buf := [] |}
       else
-        let st2 := push (set_caller st1 i {| k_co := k_co k; k_tok := k_tok k; k_prog := rest; k_stat := SWait cl;
-                                             k_out := k_out k; k_seq := seq; k_slot := None; k_buf := [] |})
-                        i (k_tok k) seq cl in
-        (* a coroutine next asks for the descriptor's time limit: getsockopt on a descriptor number
-           that is not open panics inside an extern "C" function *)
-        if k_co k && is_closed st cl then die (add_tag st2 TBadFdCo) DAbort else st2
+        (* (a coroutine next asks for the descriptor's time limit; when the option cannot be read, as
+           for a descriptor number that is not open, the answer is "no limit") *)
+        push (set_caller st1 i {| k_co := k_co k; k_tok := k_tok k; k_prog := rest; k_stat := SWait cl;
+                                  k_out := k_out k; k_seq := seq; k_slot := None; k_buf := [] |})
+             i (k_tok k) seq cl
   end.
 
 (** caller [i] goes on with what is left of its program: the next call, or the end *)
